@@ -18,17 +18,19 @@ META = {
                   "(<=120(400) messages, 1-4 ECUs, windows 1-5 s, D 0-20 s, ticks of 1 s and 0.1 s) are validated one by "
                   "one by TLC against the property-shaped contract.",
     "level_note": "Trusted: TLC, the driver projection (position tag in the payload, full-field equality = intact). "
-                  "Narrow readings: 'ties in original order' is checked with consecutively increasing message indices "
-                  "(what every producer in adlt delivers); the lifecycle table is complete and fixed before sorting starts "
+                  "A message's identity in the traces is a uid tagged in the payload, independent of its index field; the "
+                  "permutation part is checked for every input incl. unset / repeated / per-source index fields. "
+                  "Narrow readings: 'ties in original order' is checked only when the index fields increase strictly "
+                  "along the input (what one producer in adlt delivers); otherwise only 'ordered by calculated time'; the lifecycle table is complete and fixed before sorting starts "
                   "(the code caches a start time on first sight); the ordering claim is only checked when every message's "
                   "lifecycle is in the table, reception times never decrease and rx - calc <= D for every message "
                   "(evaluated by TLC from the logged fields); outside of that only the permutation part is checked. "
                   "window size 0 is outside the statement (>= 1 s).",
 }
 
-EMIT_QUICK = [("emit", "Sorter_emit.cfg"), ("emit-w1", "Sorter_emit_w1.cfg")]
+EMIT_QUICK = [("emit", "Sorter_emit.cfg"), ("emit-w1", "Sorter_emit_w1.cfg"), ("emit-dup", "Sorter_emit_dup.cfg")]
 EMIT_THOROUGH = EMIT_QUICK + [("emit-back", "Sorter_emit_back.cfg"), ("emit-4", "Sorter_emit_thorough.cfg"),
-                              ("emit-w3", "Sorter_emit_w3.cfg")]
+                              ("emit-w3", "Sorter_emit_w3.cfg"), ("emit-dup2", "Sorter_emit_dup2.cfg")]
 
 
 def drive(binp, args, out):
@@ -38,10 +40,10 @@ def drive(binp, args, out):
     return json.loads(p.stdout.strip().splitlines()[-1])
 
 
-def case_stats(cases, bound_of):
+def case_stats(cases, bound_of, ordered_of):
     """coverage counters from the recorded traces (information only, never a verdict)"""
     st = {"cases_bound_ok": 0, "cases_outside_bound": 0, "bound_ok_and_reordered": 0, "ctrl_requests": 0,
-          "missing_lifecycle_msgs": 0, "by_kind": {}, "max_len": 0, "windows": {}, "delays_D": {}}
+          "missing_lifecycle_msgs": 0, "cases_with_equal_calc_and_index": 0, "cases_index_not_increasing": 0, "by_kind": {}, "max_len": 0, "windows": {}, "delays_D": {}}
     for k, evs in cases.items():
         h = evs[0]["hdr"]
         st["by_kind"][h["kind"]] = st["by_kind"].get(h["kind"], 0) + 1
@@ -52,8 +54,15 @@ def case_stats(cases, bound_of):
         ids = {t["id"] for t in h["table"]}
         st["ctrl_requests"] += sum(1 for m in h["msgs"] if m["ctrl"])
         st["missing_lifecycle_msgs"] += sum(1 for m in h["msgs"] if m["lc"] not in ids)
-        order = [e["idx"] for e in evs[1:] if e["ev"] == "out"]
+        order = [e["uid"] for e in evs[1:] if e["ev"] == "out"]
         b = bound_of.get(k)
+        # (coverage only) does the input contain two messages with equal calculated time AND equal index field?
+        start = {t["id"]: t["start"] for t in h["table"]}
+        keys = [((m["rx"] if m["ctrl"] else min(start[m["lc"]] + m["ts"], m["rx"])), m["index"]) for m in h["msgs"] if m["lc"] in start]
+        if len(set(keys)) < len(keys):
+            st["cases_with_equal_calc_and_index"] += 1
+        if not ordered_of.get(k, True):
+            st["cases_index_not_increasing"] += 1
         if b:
             st["cases_bound_ok"] += 1
             if order != sorted(order):
@@ -63,10 +72,10 @@ def case_stats(cases, bound_of):
     return st
 
 
-def binding_selftest(ctx, cases, bound_of, accepted):
+def binding_selftest(ctx, cases, bound_of, ordered_of, accepted):
     """corrupt accepted traces (swap two outputs of a bound-ok case, delete an output, duplicate one, flip `intact`) and
     require that TLC rejects every corrupted copy while the untouched copy is still accepted"""
-    pick = [k for k in sorted(cases) if k in accepted and bound_of.get(k) and sum(1 for e in cases[k] if e["ev"] == "out") >= 2][:3]
+    pick = [k for k in sorted(cases) if k in accepted and bound_of.get(k) and ordered_of.get(k) and sum(1 for e in cases[k] if e["ev"] == "out") >= 2][:3]
     if not pick:
         raise c.ToolError("binding self-test: no accepted bound-ok case with two outputs")
     out, expect_rej, expect_ok, n = [], set(), set(), 0
@@ -100,9 +109,11 @@ def check(ctx):
     trace = ctx.path("trace.ndjson")
     # (a) model checking of the design module: threshold >= D, permutation, ordered under the bound
     res = c.tlc_must_pass(ctx, "design", "mc/MCSorter.tla", "Sorter_quick.cfg" if quick else "Sorter_thorough.cfg", timeout=3000)
+    c.tlc_must_pass(ctx, "design-dup", "mc/MCSorter.tla", "Sorter_dup.cfg", timeout=3000)     # index field never assigned (all 0)
     # (b) scenario emission: every complete behaviour of the bounded models, with predicted output and contract verdict
     scn = ctx.path("scenarios.ndjson")
     nscn = 0
+    cov_dup = 0
     cov = {"roll": 0, "lc_switch": 0, "capped": 0, "ctrl": 0, "bound": 0, "not_bound": 0, "contract_not_ok": 0, "len_ge2": 0}
     with open(scn, "w") as f:
         for name, cfg in (EMIT_QUICK if quick else EMIT_THOROUGH):
@@ -110,6 +121,7 @@ def check(ctx):
             for s in c.scn_lines(r):
                 f.write(json.dumps(s) + "\n")
                 nscn += 1
+                cov_dup += s.get("index_mode") != "pos"
                 ms = s["msgs"]
                 cov["roll"] += any(m["roll"] for m in ms)
                 cov["lc_switch"] += any(m["sw"] for m in ms)
@@ -120,23 +132,26 @@ def check(ctx):
                 cov["len_ge2"] += len(ms) >= 2
             r.out = ""
             r.printed = {}
-    for k in ("roll", "lc_switch", "capped", "ctrl", "bound", "not_bound"):
+    cov["dup_index"] = cov_dup
+    for k in ("roll", "lc_switch", "capped", "ctrl", "bound", "not_bound", "dup_index"):
         if cov[k] == 0:
             raise c.ToolError("vacuous scenario set: no TLC scenario exercises path '%s'" % k)
     # (c,d) replay on the real code (prediction fast path) + random streams (always traced)
     nrand, ndet, maxlen = (1500, 300, 120) if quick else (8000, 2000, 400)
-    info = drive(binp, ["--scenarios", scn, "--sample-every", str(max(1, nscn // (400 if quick else 2000))), "--random", str(nrand), "--det", str(ndet),
+    ndup = 600 if quick else 3000
+    info = drive(binp, ["--scenarios", scn, "--sample-every", str(max(1, nscn // (400 if quick else 2000))), "--random", str(nrand), "--det", str(ndet), "--dup", str(ndup),
                         "--seed", str(ctx.seed), "--max-len", str(maxlen)], trace)
     # (e) TLC validates every recorded run against the contract
     v = c.validate_trace(ctx, "sorter", "SorterTrace.tla", trace, timeout=3000)
-    bound_of = {}
+    bound_of, ordered_of = {}, {}
     for payload in v.res.printed.get("BOUND", []):
-        k, b = payload.split(", ")
+        k, b, o = payload.split(", ")
         bound_of[int(k)] = (b.strip() == "TRUE")
+        ordered_of[int(k)] = (o.strip() == "TRUE")
     v.res.out = ""
     ctx.add_tlc("trace-validation", v.res)
     cases = c.split_cases(trace)
-    ctx.evaluations = info["replayed"] + info["random"] + info["det"]
+    ctx.evaluations = info["replayed"] + info["random"] + info["det"] + info["dup"]
     ctx.traces_validated = info["cases"] - len(v.violations)
     ctx.rule = ("a case = one call of buffer_sort_messages on one (stream, lifecycle table, window, D); TLC scenarios: every "
                 "complete behaviour of the bounded Sorter models, executed on the real code, judged by the model-checked "
@@ -150,12 +165,13 @@ def check(ctx):
             seen.add(json.dumps([h["W"], h["D"], h["table"], h["msgs"]], sort_keys=True))
     ctx.distinct_nontrivial = cov["len_ge2"] + len(seen)
     ctx.exhaustive = True
-    for k in ("replayed", "fast_path", "slow_path", "drift", "sampled", "random", "det", "det_skipped"):
+    for k in ("replayed", "fast_path", "slow_path", "drift", "drift_dup_index", "sampled", "random", "det", "det_skipped", "dup"):
         ctx.extra[k] = info[k]
-    ctx.extra["design_conformance"] = {"steps": info["replayed"], "mismatches": info["drift"]}
+    ctx.extra["design_conformance"] = {"steps": info["replayed"], "mismatches": info["drift"],
+                                       "expected_tie_order_drifts_with_repeated_index": info["drift_dup_index"]}
     ctx.extra["tlc_scenarios"] = nscn
     ctx.extra["scenario_paths"] = cov
-    st = case_stats(cases, bound_of)
+    st = case_stats(cases, bound_of, ordered_of)
     ctx.extra["trace_paths"] = st
     ctx.extra["trace_events"] = info["lines"]
     ks = list(cases)
@@ -164,9 +180,10 @@ def check(ctx):
         smp["hdr"]["msgs"] = smp["hdr"]["msgs"][:8]
         ctx.add_sample(smp)
     if not v.violations:      # vacuity / self-test failures are tool errors; they never mask a verdict
-        if st["bound_ok_and_reordered"] == 0 or st["cases_outside_bound"] == 0 or st["ctrl_requests"] == 0:
+        if (st["bound_ok_and_reordered"] == 0 or st["cases_outside_bound"] == 0 or st["ctrl_requests"] == 0
+                or st["cases_with_equal_calc_and_index"] == 0):
             raise c.ToolError("vacuous traces: %s" % st)
-        binding_selftest(ctx, cases, bound_of, set(cases))
+        binding_selftest(ctx, cases, bound_of, ordered_of, set(cases))
     rej = {r[0]: r for r in v.rejected}
     for k in sorted(v.violations):
         r = rej.get(k)
